@@ -21,7 +21,7 @@ REQUIRED = {"c07_pairs": 10000, "c07_pairs_strictly_larger": 1000, "c07_scans_cu
 
 
 def plan(tier, seed):
-    return ec.plan(ID, tier, seed)
+    return ec.plan(ID, tier, seed, stride3=24)
 
 
 def run_shard(spec, ctx):
